@@ -33,7 +33,7 @@ open Nix.Units.Lemmas (optPrefixes powerTexts)
 /-- every array has one well-formed descriptor per data dimension, every tag's position, extent and unit
 lengths match its references with convertible units, every entity has type, name, id and date -/
 def WellFormed (f : File) : Prop :=
-  f.createdAt ≠ 0 ∧
+  f.createdAt ≠ none ∧
   (∀ b ∈ f.blocks, EntOk b.ent ∧ (∀ g ∈ b.groups, EntOk g) ∧ (∀ da ∈ b.arrays, ArrayOk da) ∧
      (∀ t ∈ b.tags, TagOk b.arrays t) ∧ (∀ t ∈ b.mtags, MultiTagOk b.arrays t) ∧
      (∀ e ∈ sourcesEnts b.sources, EntOk e)) ∧
@@ -81,7 +81,11 @@ theorem C14_sound (f : File) (h : WellFormed f) : validate f = .ok [] := by
     have hc := (allChecks_iff f kind msgs).mp ⟨path, hkm⟩
     have : msgs = [] := by
       cases kind with
-      | file => simp only [IsCheckOf] at hc; rw [hc]; simp [checkFileObj, hf]
+      | file =>
+        simp only [IsCheckOf] at hc; rw [hc]
+        cases hcr : f.createdAt with
+        | none => exact absurd hcr hf
+        | some v => simp [checkFileObj, hcr]
       | block => obtain ⟨b, hbm, rfl⟩ := hc; exact checkEntity_nil (hb b hbm).1
       | group => obtain ⟨b, hbm, g, hg, rfl⟩ := hc; exact checkEntity_nil ((hb b hbm).2.1 g hg)
       | array => obtain ⟨b, hbm, da, hd, rfl⟩ := hc; exact checkDataArray_nil ((hb b hbm).2.2.1 da hd)
@@ -745,7 +749,7 @@ theorem C14_shape_array :
 
 theorem C14_shape_entities :
     sitesOf ["check_file", "check_entity", "check_feature", "check_property"] = [
-      ("check_file", .NoDate, ["not nixfile.created_at"]),
+      ("check_file", .NoDate, ["file_created_at is None"]),
       ("check_feature", .NoID, ["not feat.id"]),
       ("check_feature", .NoDate, ["feat.created_at is None"]),
       ("check_feature", .NoData, ["not feat.data"]),
@@ -784,7 +788,7 @@ def noIdBlock : Block :=
   { ent := { type_ := some ['t'], id := none, idUuid := false, name := some ['b'], createdAt := some 1 },
     groups := [], arrays := [], tags := [], mtags := [], sources := [] }
 
-def noIdFile : File := { createdAt := 1, sections := [], blocks := [noIdBlock] }
+def noIdFile : File := { createdAt := some 1, sections := [], blocks := [noIdBlock] }
 
 /-- the API refuses the entity, the exception propagates out of `validate()` -/
 theorem C14_complete_NoID_counterexample : ¬ C14_complete_NoID_full := by
@@ -828,7 +832,7 @@ theorem C14_complete_NoID_partial (f : File) (rs : List (Key × List Msg)) (hv :
 def sampleFile : File :=
   let e (n : String) : Ent := { type_ := some ['t'], id := some n.toList, idUuid := true, name := some n.toList,
                                 createdAt := some 1 }
-  { createdAt := 1, sections := [.mk (e "sec") [{ id := some ['p'], idUuid := true, name := some ['p'] }] []],
+  { createdAt := some 1, sections := [.mk (e "sec") [{ id := some ['p'], idUuid := true, name := some ['p'] }] []],
     blocks := [{ ent := e "b", groups := [e "g"],
                  arrays := [{ ent := e "a", dataType := some ['d'], shape := [2, 3],
                               dims := [{ kind := .range, index := 1, ticks := [1, 2], nLabels := 0, interval := none,
